@@ -170,11 +170,17 @@ def update_mcm(m, u):
                               bsp_reconciled=u["bsp_rec"], market_type=m.get("type", "WIN"), number_of_winners=m.get("winners", 1),
                               bet_delay=u.get("bet_delay", 0), persistence_enabled=u.get("persistence_enabled", True),
                               each_way_divisor=m.get("ew"), event_id=m.get("event", "100"),
+                              **({"market_time": iso_ms(m["market_time"])} if m.get("market_time") is not None else {}),
                               runners=[{"id": r["id"], "status": r.get("status", "ACTIVE"), "af": r.get("af"), "hc": r.get("hc") or None,
                                         "bsp": r.get("sp")} for r in u["runners"]])
     rcs = [bb.rc(r["id"], atb=r.get("atb", []), atl=r.get("atl", []), trd=r.get("trd", []), hc=r.get("hc") or None)
            for r in u["runners"] if r.get("status", "ACTIVE") == "ACTIVE" or r.get("atb") or r.get("trd")]
-    return bb.mcm(m["id"], u["pt"], md, rcs, img=True)
+    # C14 scenarios send an image first and deltas afterwards (the listener filter keeps state in the cache)
+    return bb.mcm(m["id"], u["pt"], md, rcs, img=(not m.get("delta_updates")) or u is m["updates"][0])
+
+
+def iso_ms(ms_epoch):
+    return datetime.datetime.utcfromtimestamp(ms_epoch / 1000).strftime("%Y-%m-%dT%H:%M:%S.") + "%03dZ" % (ms_epoch % 1000)
 
 
 def model_lines(sc):
@@ -371,7 +377,9 @@ class Run:
                     t._vidx = tkey
                     self.trades[tkey] = t
                     self.trade_order.append(t)
-                t = self.trades[tkey]
+                t = self.trades.get(tkey)
+                if t is None:
+                    return "no-such-trade"      # the update that created it was filtered out by the listener (C14 scenarios)
                 if kind == "L":
                     otype = ot.LimitOrder(price=price, size=size, persistence_type=pers, time_in_force="FILL_OR_KILL" if fok else None,
                                           min_fill_size=minfill, price_ladder_definition={"C": "CLASSIC", "F": "FINEST", "L": "LINE_RANGE"}[ladder])
@@ -538,6 +546,10 @@ class Run:
                 mf = {"markets": [paths[mi] for mi in s["markets"]]}
                 if sc.get("event_processing"):
                     mf["event_processing"] = True
+                if sc.get("event_groups"):
+                    mf["event_groups"] = dict(sc["event_groups"])
+                if sc.get("listener_kwargs"):
+                    mf["listener_kwargs"] = dict(sc["listener_kwargs"])
                 st = Script(market_filter=mf, name="s%d" % i, max_order_exposure=s["max_order"], max_selection_exposure=s["max_sel"],
                             max_market_exposure=s["max_market"], max_trade_count=s["max_trade"], max_live_trade_count=s["max_live"],
                             multi_order_trades=s["multi"])
